@@ -206,6 +206,7 @@ class ProofResult:
         self.broken = None  # dict(file,line,theorem,message)
         self.cmds = []
         self.wall = 0.0
+        self.coqchk = {}  # thorough tier: property file -> coqchk context summary
 
 
 def build_obligations(ctx, files, prop_files, timeout=1500):
@@ -241,6 +242,23 @@ def build_obligations(ctx, files, prop_files, timeout=1500):
                         res.discharged.append(n)
     finally:
         lock.close()
+    if res.ok and ctx.tier == "thorough":
+        # independent re-check of the property's .vo files and everything they depend on
+        for pf in prop_files:
+            mod = LOGICAL + "." + pf[:-2].replace("/", ".")
+            cmd = ["coqchk", "-o", "-silent", "-Q", COQ, LOGICAL, mod]
+            try:
+                r = subprocess.run(["timeout", "3000"] + cmd, cwd=COQ, capture_output=True, text=True)
+                rc, out = r.returncode, (r.stdout + r.stderr)
+            except Exception as e:  # pragma: no cover
+                rc, out = 99, repr(e)
+            res.cmds.append(" ".join(cmd))
+            summary = out[out.find("CONTEXT SUMMARY"):] if "CONTEXT SUMMARY" in out else out[-1500:]
+            res.coqchk[pf] = dict(rc=rc, summary=summary[-4000:])
+            if rc != 0:
+                res.ok = False
+                res.broken = dict(file=pf, line=None, theorem=None, message="coqchk failed (rc %s):\n%s" % (rc, out[-2000:]))
+                break
     res.wall = time.time() - t0
     return res
 
@@ -485,6 +503,7 @@ def run_check(prop, tier, seed):
             checker_cmd="; ".join(dict.fromkeys(proof.cmds + ctx.checker_cmds)) or "coqc (not reached)",
             trusted_base=trusted,
             print_assumptions=proof.assumptions,
+            coqchk=proof.coqchk,
             evaluations=corr.evaluations,
             distinct_nontrivial=len(corr.distinct),
             rule=corr.rule,
